@@ -950,10 +950,10 @@ func runC04(w *W) {
 
 // SQL source spellings (backslash escapes are the SQL ones) …
 var nastyStrings = []string{`'x\ny'`, `'a\nb'`, `'tab\there'`, `'q''q'`, `'back\\slash'`, `'\0nul'`, `'é€😀'`, `''`, `' '`, `'%d %s'`, `'<nil>'`, `'a\rb'`, `'\'lead'`, `'trail\\'`,
-	`'line1\nline2\nline3'`, `'\x41\x0a'`, `'a\\nb'`, `'\b\f\v\a\e'`, `'{}'`, `'$a$'`, `'--c'`, `'/*c*/'`, `'x;y'`,
+	"NULL", `'line1\nline2\nline3'`, `'\x41\x0a'`, `'a\\nb'`, `'\b\f\v\a\e'`, `'{}'`, `'$a$'`, `'--c'`, `'/*c*/'`, `'x;y'`,
 	// … and raw control characters between the quotes
 	"'x\ny'", "'raw\ttab'", "'multi\n\nline'", "'cr\rlf\n'"}
-var nastyNumbers = []string{"0", "18446744073709551615", "18446744073709551616", "9223372036854775808", "1e400", "0x10", "0b11", "1.50", ".5", "1e-7", "1_000", "007", "1e21", "123456789012345678901234567890"}
+var nastyNumbers = []string{"NULL", "1e-9999999999", "1e-19", "-0", "0", "18446744073709551615", "18446744073709551616", "9223372036854775808", "1e400", "0x10", "0b11", "1.50", ".5", "1e-7", "1_000", "007", "1e21", "123456789012345678901234567890"}
 var nastyIdents = []string{"`a b`", "`a.b`", "`%`", "\"q\"\"q\"", `"ident\\with\\bs"`, "`é`", "`1x`", "`select`", "\"NULL\"", "`a'b`", "`tab\there`"}
 
 // leafSubstitute replaces 1..3 leaves of src (tokens of kind STRING / NUMBER / IDENT) by a nasty leaf of the same kind.
